@@ -27,6 +27,10 @@ OBJECTS = {
     "lang": [Literal("chat", lang="fr"), Literal("chat")],
     # the keyword of the syntax as ordinary text: in a literal, in an IRI, with braces around it
     "graphword": [Literal("a bar graph { of it }"), URIRef(EX + "graph/GRAPH")],
+    # numbers whose lexical form a shorthand / %-formatting would not keep: many significant digits, exponent forms, decimals with trailing zeros
+    "numbers": [Literal("52.3702157", datatype=URIRef(XSD + "double")), Literal("3.141592653589793E0", datatype=URIRef(XSD + "double"))],
+    "numbers2": [Literal(1.000000001), Literal("1.50", datatype=URIRef(XSD + "decimal"))],
+    "numbers3": [Literal("+5", datatype=URIRef(XSD + "integer")), Literal("1e3", datatype=URIRef(XSD + "float"))],
     "keywords": [Literal("INSERT DATA { GRAPH <x> { } } WHERE"), Literal("} GRAPH ?g {", lang="en")],
 }
 
@@ -123,7 +127,7 @@ def replay(cfg, events):
     try:
         store = SPARQLUpdateStore(query_endpoint="http://loopback.invalid/query", update_endpoint="http://loopback.invalid/update",
                                   autocommit=cfg["autocommit"], dirty_reads=cfg["dirty_reads"], method=cfg.get("method", "GET"),
-                                  returnFormat=cfg.get("format", "xml"))
+                                  returnFormat=cfg.get("format", "xml"), **({"params": {"infer": "false"}, "headers": {"X-App": "rvf"}} if cfg.get("params") else {}))
 
         def facade(g):
             return Graph(store, identifier=DATASET_DEFAULT_GRAPH_ID if g == "D" else v.c[g])
